@@ -169,11 +169,9 @@ def okIncorporate (ref : Seq) (es : List Edit) (st : Strand) (bs : List Blk) (an
 
 /-- shape of the known defect F-C13a (used only to keep its matcher narrow): a collection in which a
     length-changing variant is followed by another variant, and some block is not wholly to its left -/
-def seqShiftShape : List Edit → List Blk → Bool
-  | [], _ => false
-  | x :: xs, bs =>
-    (decide (x.delta ≠ 0) && xs.any (fun y => decide (x.s ≤ y.s)) && bs.any (fun b => decide (x.s < b.2)))
-    || seqShiftShape xs bs
+def seqShiftShape (es : List Edit) (bs : List Blk) : Bool :=
+  es.any fun x =>
+    decide (x.delta ≠ 0) && es.any (fun y => decide (x.s < y.s)) && bs.any (fun b => decide (x.s < b.2))
 
 /-! ### VCF records → haplotypes -/
 
